@@ -84,6 +84,10 @@ class DispatchingRequestHandler(BaseHTTPRequestHandler):
             self.end_headers()
             self.wfile.write(response_xml_string)
             return
+        except Exception as ex:  # noqa: BLE001
+            self.server.logger.error('malformed path {} (request from {}): {}', self.path, self.client_address, ex)
+            self._send_plain_response(400, 'Bad Request')
+            return
 
         peer_name = self.connection.getpeername()
         try:
@@ -126,10 +130,19 @@ class DispatchingRequestHandler(BaseHTTPRequestHandler):
             self.server.logger.error('invalid path {} (request from {}): {}', self.path, self.client_address, ex.reason)
             self._send_plain_response(ex.status, ex.reason)
             return
+        except Exception as ex:  # noqa: BLE001
+            self.server.logger.error('malformed path {} (request from {}): {}', self.path, self.client_address, ex)
+            self._send_plain_response(400, 'Bad Request')
+            return
 
         peer_name = self.connection.getpeername()
-        result = component.do_get(self.headers, self.path, peer_name)
-        http_status, http_reason, response_xml_string, content_type = result
+        try:
+            result = component.do_get(self.headers, self.path, peer_name)
+            http_status, http_reason, response_xml_string, content_type = result
+        except Exception as ex:  # noqa: BLE001
+            self.server.logger.error('exception (request from {}): {}', self.path, self.client_address, ex)
+            self._send_plain_response(500, 'exception')
+            return
 
         self.send_response(http_status, http_reason)
         response_xml_string = self._compress_if_supported(response_xml_string)
